@@ -17,7 +17,7 @@ func TestMain(m *testing.M) {
 }
 
 var stmtNames = []string{"", "a", "b"}
-var portalNames = []string{"", "p", "q"}
+var portalNames = []string{"", "p", "a"} // ("a" is also a statement name: the two namespaces are separate)
 
 const limit = 600
 
@@ -238,7 +238,12 @@ func genCase(t *rapid.T) Case {
 	c.Pipelined = rapid.IntRange(0, 3).Draw(t, "pipelined?") == 0
 	b := &builder{t: t, c: &c, md: model.New(c.Cfg.Table), fresh: map[string]bool{}}
 	k := gen.QueryNames
+	c.Cfg.OptSeed = rapid.IntRange(0, 1000).Draw(t, "option-order")
+	c.Cfg.CustomCaches = rapid.IntRange(0, 3).Draw(t, "custom-caches") == 2
 	nb := rapid.IntRange(1, 5).Draw(t, "nbatches")
+	if rapid.IntRange(0, 39).Draw(t, "long-lived") == 17 {
+		nb = rapid.IntRange(20, 60).Draw(t, "nbatches-long") // a long-lived connection
+	}
 	for i := 0; i < nb; i++ {
 		kind := rapid.SampledFrom(batchKinds).Draw(t, "batch")
 		switch kind {
